@@ -56,9 +56,11 @@ pub fn tok_index(t: &Toks, start: usize, src_len: usize) -> String {
 }
 
 pub fn dict_for(xs: &Xstate, words: &[String]) -> String {
+    // names of the source's words, plus the names late-bound `Resolve` opcodes will look up at run time
+    let resolves: Vec<String> = xs.verif_code().iter().filter(|o| o.kind == "resolve").map(|o| o.name.clone()).collect();
     xs.verif_dict()
         .iter()
-        .filter(|e| words.iter().any(|w| *w == e.0))
+        .filter(|e| words.iter().any(|w| *w == e.0) || resolves.iter().any(|w| *w == e.0))
         .map(|(name, kind, imm, num, cell, native)| {
             format!("{}~{}~{}~{}~{}~{}", canon::hex(name.as_bytes()), kind, if *imm { 1 } else { 0 }, num,
                 cell.as_ref().map(canon::cell).unwrap_or("N".into()), canon::hex(native.as_bytes()))
